@@ -12,15 +12,18 @@ pub fn get() -> FunctionDefinitions {
         struct Impl(Vec<Rc<dyn Get>>);
         impl Get for Impl {
             fn get(&self, context: &Context) -> Option<JsonValue> {
-                let mut context = context.with_inupt(context.input().deref().clone());
+                // The first stage runs on the context as it is; every later stage gets the
+                // previous value as input and the previous input as its parent.
+                let mut current: Option<Context> = None;
                 for e in &self.0 {
-                    if let Some(val) = e.get(&context) {
-                        context = context.with_inupt(val);
+                    let stage_context = current.as_ref().unwrap_or(context);
+                    if let Some(val) = e.get(stage_context) {
+                        current = Some(stage_context.with_inupt(val));
                     } else {
                         return None;
                     }
                 }
-                Some(context.input().deref().clone())
+                current.map(|context| context.input().deref().clone())
             }
         }
         Rc::new(Impl(args))
